@@ -3,6 +3,7 @@ C02 — theorems tying the model's policy-chain checks (algorithmic: SignatureVe
 root envelope, version comparisons) to the declarative conditions of the property.
 -/
 import Gittuf.Proofs.Chain
+import Gittuf.Props.Witness
 namespace Gittuf
 
 /-- Full statement (repaired variant): a successful verification of a range implies the chain
